@@ -313,7 +313,7 @@ Proof.
     apply NGo_set_pc; [apply NGo_lock; auto| |nogo].
     intros y Hy. simpl in Hy. subst. rewrite th_updT_same. reflexivity.
   - assert (Hl : lk (th s k) = Some t) by (apply L0; [discriminate|rewrite P; simpl; auto]).
-    destruct (tstate_eqb (st (th s k)) SLEEPING); inversion H; subst.
+    destruct (tstate_eqb (st (th s k)) SLEEPING && (0 <? e)); inversion H; subst.
     + apply NGo_set_pc; [| |nogo].
       * apply NGo_wake; [ng_frame G|]. right. exists t. split; auto. rewrite th_updT_same. simpl. exact Hl.
       * intros y Hy. simpl in Hy. subst.
@@ -324,7 +324,7 @@ Proof.
     + apply NGo_set_pc; [apply NGo_unlock; auto|nohold|nogo].
     + apply NGo_finish. apply NGo_unlock; auto.
   - destruct (tstate_eqb _ READY && (err (th s k) =? 0)); inversion H; subst; [apply NGo_set_pc; [auto|nohold|nogo]|now apply NGo_finish].
-  - inversion H; subst. apply NGo_finish. ng_frame G.
+  - destruct (0 <? e); inversion H; subst; apply NGo_finish; auto. ng_frame G.
 Qed.
 
 Lemma NGo_dequeue s o y ns :
